@@ -240,16 +240,20 @@ def fitScript (g : G) (s : Script) : G × Option Script :=
     else
       (g, some { s1 with pad := cap - len })
 
-/-- `n` random legal scripts: (stream, meaning) -/
-def genStreams (seed n : Nat) : List (List Nat × List Nat) :=
-  let rec go : Nat → G → List (List Nat × List Nat) → List (List Nat × List Nat)
+/-- `n` random legal scripts -/
+def genScripts (seed n : Nat) : List Script :=
+  let rec go : Nat → G → List Script → List Script
     | 0, _, acc => acc.reverse
     | k + 1, g, acc =>
       let (g, s) := genScript g
       let (g, fs) := fitScript g s
       match fs with
-      | some s => go k g ((build s, meaning s) :: acc)
+      | some s => go k g (s :: acc)
       | none => go k g acc
   go n { s := seed * 2 + 1 } []
+
+/-- (stream, meaning) of `n` random legal scripts -/
+def genStreams (seed n : Nat) : List (List Nat × List Nat) :=
+  (genScripts seed n).map fun s => (build s, meaning s)
 
 end DM.Spec.Build
